@@ -91,9 +91,16 @@ class Real:
         L = impl.lk()
         self.L = L
         self.sts = []
-        for comp in comps:
+        AM = impl._CLASSES.get("am") or impl.affine_model_class()
+        impl._CLASSES["am"] = AM
+        for c, comp in enumerate(comps):
             n = len(comp["pins"])
-            m = L.Model(pin_dic={L.Pin(p): i for p, i in zip(comp["pins"], comp["idx"])}, Smatrix=gen.mat_np(comp["S"], n, n))
+            if c % 2 == 0:
+                m = L.Model(pin_dic={L.Pin(p): i for p, i in zip(comp["pins"], comp["idx"])}, Smatrix=gen.mat_np(comp["S"], n, n))
+            else:
+                # a block with a (dummy) parameter whose own default is 0.25: the matrix does not depend on it, but
+                # the solver's default_params does, so that calls which touch the defaults become observable
+                m = AM(comp["pins"], comp["idx"], gen.mat_np(comp["S"], n, n), np.zeros((n, n), complex), pname="pq", default=0.25)
             self.sts.append(L.Structure(model=m))
         self.sol = L.Solver()
 
@@ -113,6 +120,9 @@ class Real:
             "connections_list": [key(x) for x in s.connections_list],
             "free_pins": [key(x) for x in s.free_pins],
             "pin_mapping": [(n.name, key(t)) for n, t in s.pin_mapping.items()],
+            "default_params": sorted((k, repr(v)) for k, v in s.default_params.items()),
+            "param_mapping": sorted(s.param_mapping),
+            "monitors": sorted(str(self.sid(x)) for x in s.monitor_st),
             "st": [{"pin_list": [key(x) for x in st.pin_list],
                     "conn_dict": [(key(a), key(b)) for a, b in st.conn_dict.items()],
                     "connected_to": [self.sid(x) for x in st.connected_to]} for st in self.sts],
